@@ -133,6 +133,17 @@ func progress(s string) {
 	}
 }
 
+func nonASCII(sc *Scenario) bool {
+	for _, p := range sc.Paths {
+		for i := 0; i < len(p); i++ {
+			if p[i] >= 0x80 {
+				return true
+			}
+		}
+	}
+	return false
+}
+
 func resultLines(log string) string {
 	var out []string
 	for _, l := range strings.Split(log, "\n") {
@@ -168,22 +179,36 @@ func TestSim(t *testing.T) {
 	}
 	ColdStart = os.Getenv("SIM_COLD") != ""
 	if !ColdStart && os.Getenv("SIM_NOPOOL") == "" {
-		warmUp()
+		if mode := os.Getenv("SIM_MODE"); mode == "window" {
+			// Different amounts of earlier history in different workers
+			// (caches rotate at sizes the simulator does not know).
+			preSoak([]int{200, 50, 500, 15, 1200}[(envU("SIM_FROM", 0)/100)%5])
+		}
 	}
-	// The hook must be alive: a trivially stepping query has to report steps.
+	// The hook must be alive: at least one of a few probe queries has to
+	// report evaluation steps (a change may legitimately answer a trivial
+	// path without the executor, so no single probe is decisive).
 	// (Not in cold-start runs, whose point is that nothing has run before.)
 	if !ColdStart {
-		sc := C20Case{Path: "$.a", Doc: DocSpec{JSON: `{"a":1}`}, Kind: "query", Err: "canceled"}.scenario(nil)
-		w, err := buildWorld(sc)
-		if err != nil {
-			die(2, "%v", err)
+		steps := 0
+		for _, probe := range []C20Case{
+			{Path: "$.a", Doc: DocSpec{JSON: `{"a":1}`}, Kind: "query", Err: "canceled"},
+			{Path: "$[*] ? (@ > 1)", Doc: DocSpec{JSON: `[1,2,3]`}, Kind: "query", Err: "canceled"},
+			{Path: "strict $.a.b + 1", Doc: DocSpec{JSON: `{"a":{"b":1}}`}, Kind: "first", Err: "canceled"},
+		} {
+			sc := probe.scenario(nil)
+			w, err := buildWorld(sc)
+			if err != nil {
+				die(2, "%v", err)
+			}
+			var o *Outcome
+			if err := bubble(t, func() { o = w.execOp(sc.Tasks[0].Ops[0], nil, true) }); err != nil {
+				die(2, "%v", err)
+			}
+			steps += o.Steps
 		}
-		var o *Outcome
-		if err := bubble(t, func() { o = w.execOp(sc.Tasks[0].Ops[0], nil, true) }); err != nil {
-			die(2, "%v", err)
-		}
-		if o.Steps < 2 || o.Raw != "[f:1]" {
-			die(2, "harness: step hook self-check failed (steps=%d polls=%d result=%s): /repo built without -tags verif, or the hook line is missing", o.Steps, o.Polls, o.Brief())
+		if steps == 0 {
+			die(2, "harness: step hook self-check failed (no probe query reported an evaluation step): /repo built without -tags verif, or the hook line is missing")
 		}
 	}
 	from, to := envU("SIM_FROM", 0), envU("SIM_TO", 0)
@@ -268,6 +293,12 @@ func TestSim(t *testing.T) {
 				harness(err, fmt.Sprintf("seed %d", seed))
 			}
 			sum.Scenarios++
+			if mode == "window" && (sum.Scenarios%25 == 0 || nonASCII(sc)) {
+				// More history between scenarios: caches of printed
+				// strings rotate, earlier entries age (at once after a
+				// scenario whose own texts such a cache may hold).
+				preSoak(200)
+			}
 			mergeStats(sum.Stats, rep.Stats)
 			sum.Fingerprints = append(sum.Fingerprints, rep.Fingerprint)
 			sum.Seeds = append(sum.Seeds, seed)
